@@ -2,13 +2,12 @@ SPECIFICATION Spec
 CONSTANTS
   MODE = "matrix"
   SEED = 1
-  ROUND = 1
   T1 = 2
-  T2 = 0
+  T2 = 1
   T3 = 0
   NS2 = 0
-  NS3 = 0
-  NSBIG = 0
+  NS3 = 6
+  NSBIG = 3
   NCAP = 0
   MAXD = 1
   LEN = 1
